@@ -31,6 +31,12 @@ def run(ctx):
     if not pr.get("PayloadUnchanged") or not pr.get("SsrcAnnounced"):
         raise vlib.NoVerdict("predicates not exercised: %s" % pr)
     lines = vlib.read_ndjson(trace)
+    resent = [l for l in lines if l["ev"] == "rtp" and l.get("rtx")]
+    ends = [l for l in lines if l["ev"] == "end" and l.get("rtxOn") and l.get("asked")]
+    ctx.cov["retransmissions_read"] = len(resent)
+    ctx.cov["runs_with_retransmission_requests"] = len(ends)
+    if not resent or not any(l["askedForms"] == 15 and l["resent"] for l in ends):
+        raise vlib.NoVerdict("no run asked for retransmissions of all four header forms and read some from the repair stream")
     ctx.cov["evaluations"] = sum(1 for l in lines if l["ev"] == "rtp")
     ctx.cov["traces_validated_against_impl"] = len(vecs)
     ctx.cov["samples"] = vecs[:2] + [l for l in lines if l["ev"] == "end"][:1]
@@ -38,6 +44,8 @@ def run(ctx):
         ctx, "exploration",
         rule="vectors = TLC enumeration of Media.tla (codec x RTX registered x single track or audio+video+data bundle x offering "
              "side; quick: three per codec), each on a real connected pair over loopback with seeded RTP payloads written to a "
-             "TrackLocalStaticRTP; loss is allowed, arrival of anything that was not written is not",
+             "TrackLocalStaticRTP, the packets cycling through four header forms (plain, CSRC list, header extension, both); "
+             "with RTX negotiated the receiver NACKs sixteen packets and reads the copies that come over the repair stream; "
+             "loss is allowed, arrival of anything that was not written is not",
         distinct_nontrivial=len({vlib.canon(v) for v in vecs}), exhaustive=not ctx.quick,
         replay_of=lambda v: {"vector": vecs[v["trace"]] if v["trace"] < len(vecs) else None})
